@@ -24,6 +24,7 @@ type SMCase struct {
 	VT    string   `json:"vt"` // int | struct | str2str
 	Loads []SMLoad `json:"loads"`
 	Fresh bool     `json:"fresh,omitempty"` // probe before any load (never-loaded instance)
+	Ctor  string   `json:"ctor,omitempty"`  // "ctor": the first load goes through NewFromMap / NewFromSlice / NewStr2StrFrom*; "zero": a zero-value Str2Str
 }
 
 type smStruct struct {
@@ -44,7 +45,24 @@ type smDriver interface {
 
 type smInt struct{ m *strmap.StrMap[int] }
 
-func (d *smInt) load(via string, keys []string, vals []int) error {
+func (d *smInt) load(via string, keys []string, vals []int) (err error) {
+	if d.m == nil { // first load through the constructors (they panic on error)
+		defer func() {
+			if p := recover(); p != nil {
+				d.m, err = strmap.New[int](), fmt.Errorf("constructor panicked: %v", p)
+			}
+		}()
+		if via == "map" {
+			mm := map[string]int{}
+			for i, k := range keys {
+				mm[k] = vals[i]
+			}
+			d.m = strmap.NewFromMap(mm)
+		} else {
+			d.m = strmap.NewFromSlice(keys, vals)
+		}
+		return nil
+	}
 	if via == "map" {
 		mm := map[string]int{}
 		for i, k := range keys {
@@ -79,10 +97,27 @@ func (d *smInt) itemKeys() (ks []string) {
 
 type smSt struct{ m *strmap.StrMap[smStruct] }
 
-func (d *smSt) load(via string, keys []string, vals []int) error {
+func (d *smSt) load(via string, keys []string, vals []int) (err error) {
 	vv := make([]smStruct, len(vals))
 	for i, v := range vals {
 		vv[i] = smStruct{A: int32(v), B: int64(v) * 3}
+	}
+	if d.m == nil {
+		defer func() {
+			if p := recover(); p != nil {
+				d.m, err = strmap.New[smStruct](), fmt.Errorf("constructor panicked: %v", p)
+			}
+		}()
+		if via == "map" {
+			mm := map[string]smStruct{}
+			for i, k := range keys {
+				mm[k] = vv[i]
+			}
+			d.m = strmap.NewFromMap(mm)
+		} else {
+			d.m = strmap.NewFromSlice(keys, vv)
+		}
+		return nil
 	}
 	if via == "map" {
 		mm := map[string]smStruct{}
@@ -133,10 +168,27 @@ func s2sVal(v int) string {
 	}
 	return fmt.Sprintf("v%d-%s", v, strings.Repeat("x", v%7))
 }
-func (d *smS2S) load(via string, keys []string, vals []int) error {
+func (d *smS2S) load(via string, keys []string, vals []int) (err error) {
 	vv := make([]string, len(vals))
 	for i, v := range vals {
 		vv[i] = s2sVal(v)
+	}
+	if d.m == nil {
+		defer func() {
+			if p := recover(); p != nil {
+				d.m, err = strmap.NewStr2Str(), fmt.Errorf("constructor panicked: %v", p)
+			}
+		}()
+		if via == "map" {
+			mm := map[string]string{}
+			for i, k := range keys {
+				mm[k] = vv[i]
+			}
+			d.m = strmap.NewStr2StrFromMap(mm)
+		} else {
+			d.m = strmap.NewStr2StrFromSlice(keys, vv)
+		}
+		return nil
 	}
 	if via == "map" {
 		mm := map[string]string{}
@@ -190,6 +242,18 @@ func runSMCase(raw json.RawMessage, w *TraceWriter) {
 		d = &smS2S{strmap.NewStr2Str()}
 	default:
 		d = &smInt{strmap.New[int]()}
+	}
+	if c.Ctor == "ctor" && len(c.Loads) > 0 && !c.Fresh {
+		switch c.VT {
+		case "struct":
+			d = &smSt{}
+		case "str2str":
+			d = &smS2S{}
+		default:
+			d = &smInt{}
+		}
+	} else if c.Ctor == "zero" && c.VT == "str2str" {
+		d = &smS2S{&strmap.Str2Str{}}
 	}
 	probe := func(keys []string) {
 		for _, kh := range keys {
@@ -390,6 +454,25 @@ func genSMCases(c *Ctx) []json.RawMessage {
 			out = append(out, mustJSON(SMCase{VT: vts[i%3], Fresh: i%9 == 0, Loads: []SMLoad{mk(n, 12)}}))
 		}
 	}
+	// the constructors (NewFromMap / NewFromSlice / NewStr2StrFromMap / NewStr2StrFromSlice; a bad slice pair makes
+	// them panic = a failed first load) and a zero-value Str2Str, followed by reloads
+	for i := 0; i < c.Pick(90, 900); i++ {
+		n := []int{0, 1, 2, 5, 12, 13, 100}[rng.Intn(7)]
+		first := mk(n, 12)
+		if i%10 == 9 && n >= 2 {
+			first.Via = "badslice"
+		}
+		cs := SMCase{VT: vts[i%3], Ctor: "ctor", Loads: []SMLoad{first, mk([]int{0, 1, 7, 50}[rng.Intn(4)], 8)}}
+		if i%6 == 5 {
+			// (never probed before its first load: Get on a Str2Str{} literal dereferences its nil index; only
+			// instances made by the package's constructors are "never-loaded maps" in the sense of the property)
+			cs.VT, cs.Ctor = "str2str", "zero"
+			if cs.Loads[0].Via == "badslice" {
+				cs.Loads[0].Via = "slice"
+			}
+		}
+		out = append(out, mustJSON(cs))
+	}
 	// reload histories: growing, shrinking, failed loads in between
 	for i := 0; i < c.Pick(200, 3000); i++ {
 		cs := SMCase{VT: vts[i%3]}
@@ -448,7 +531,7 @@ func bigMapMonitor(c *Ctx) {
 }
 
 func checkC07(c *Ctx) {
-	c.rule = "MC: every subset of a key universe with the empty key and prefixes ({\"\",a,ab[,b]}) x every assignment of keys to slots (the hash is an arbitrary function chosen at load) x every slot-sorted item order x histories of 2 loads/failed loads/never loaded: Get = Go-map semantics for every probe and every slot the probe may hash to. TRACE: fresh instances of StrMap[int], StrMap[struct], Str2Str per size class (random maphash seeds => many chain shapes), reload histories (grow, shrink, failed load), never-loaded and empty instances, maps up to 5000 keys; every load must be an enabled Load action on the REAL table read through the hook (slot-sorted, first-index table, prime slot count, Item enumeration), every Get must agree with MapAbs and with ImplGet on the real table. Maps of 10^5 keys are compared with a Go map in Go (monitor)."
+	c.rule = "MC: every subset of a key universe with the empty key and prefixes ({\"\",a,ab[,b]}) x every assignment of keys to slots (the hash is an arbitrary function chosen at load) x every slot-sorted item order x histories of 2 loads/failed loads/never loaded: Get = Go-map semantics for every probe and every slot the probe may hash to. TRACE: fresh instances of StrMap[int], StrMap[struct], Str2Str per size class (random maphash seeds => many chain shapes), reload histories (grow, shrink, failed load), never-loaded and empty instances, instances made by the four constructors and a zero-value Str2Str, maps up to 5000 keys; every load must be an enabled Load action on the REAL table read through the hook (slot-sorted, first-index table, prime slot count, Item enumeration), every Get must agree with MapAbs and with ImplGet on the real table. Maps of 10^5 keys are compared with a Go map in Go (monitor)."
 	if c.Thorough() {
 		c.MC("MC_StrMap.tla", "MC_StrMap_thorough.cfg", 12)
 	} else {
